@@ -48,7 +48,14 @@ def run(ctx):
                       "expected set_frequency and step_clock to re-anchor; found %s" % [m[0].name for m in movers])
     for (b, sts, pv, ls) in movers:
         g = mir.cfg(b)
-        tfu = [(bi, t) for bi, t, c in mir.iter_calls(b, name="time_from_underlying") if not t["sp"][4]]
+        # calls that evaluate the old/new map: time_from_underlying itself, or a transparent helper whose value
+        # contains such a reading (the helper's body is evaluated at the call)
+        tfu = []
+        for bi, t, c in mir.iter_calls(b):
+            if t["sp"][4]:
+                continue
+            if c["name"] == "time_from_underlying" or "time_from_underlying(" in df.canon(pv.call_tree(t), b):
+                tfu.append((bi, t))
         shift_st = [s for s in sts if s["lhs"] == "self.shift" and not s["macro"]]
         freq_st = [s for s in sts if s["lhs"] == "self.freq_scale_ppm_diff" and not s["macro"]]
         problems = []
@@ -63,7 +70,8 @@ def run(ctx):
                 call_bb == st["bb"] and False)
         pre = []
         for (cb, t) in tfu:
-            argt = df.canon(pv.op_tree(t["args"][1]), b)
+            argt = "now(self.roclock)" if "time_from_underlying(self, now(self.roclock))" in df.canon(pv.call_tree(t), b) \
+                else "?"
             ok_order = all(cb == s["bb"] and True or g.dominates(cb, s["bb"]) for s in ls + freq_st)
             # same block: call terminates its block, so stores in the same block come before it
             if any(cb == s["bb"] for s in ls + freq_st):
@@ -107,7 +115,10 @@ def run(ctx):
             ok3 = "time_from_underlying" in ret and bool(post) and any(
                 "bb" for cb in post)
             # the returned value must come from a post-adjustment call
-            ok3 = ok3 and any(df.canon(pv.call_tree(t), b) in ret for (cb, t) in tfu if cb in post)
+            ok3 = ok3 and any(df.canon(pv.call_tree(t), b) in ret or
+                              (mir.callee_of(t)["name"] == "time_from_underlying" and
+                               "time_from_underlying(self, %s)" % df.canon(pv.op_tree(t["args"][1]), b) in ret)
+                              for (cb, t) in tfu if cb in post)
         else:
             ok3 = "time_from_underlying" in ret
         if ok3:
